@@ -117,7 +117,8 @@ Section Stored.
   Definition stored_page : Type := (page_header * list N)%type.
 
   Definition StoredPage (col : column) (p : stored_page) (body : list N) : Prop :=
-    StoredDenotes (c_codec col) (snd p) body /\ h_usize (fst p) = Z.of_nat (length body).
+    StoredDenotes (c_codec col) (snd p) body /\ h_usize (fst p) = Z.of_nat (length body) /\
+    bytes (snd p) /\ bytes body /\ len body < 2 ^ 60.     (* byte strings, of a size a process can hold *)
 
   (** data pages of a chunk, given its dictionary *)
   Inductive DataPagesDenote (col : column) (dict : option (list (list N))) :
@@ -150,6 +151,12 @@ Definition supported_level_encodings (col : column) (h : page_header) : Prop :=
 (** a data page carquet claims: type DATA_PAGE, a claimed value encoding, RLE levels where the column has levels *)
 Definition supported_page (col : column) (h : page_header) : Prop :=
   h_type h = E_CARQUET_PAGE_DATA /\ supported_encoding (h_encoding h) /\ supported_level_encodings col h.
+
+(** types for which carquet implements dictionary pages (all but BOOLEAN; no known writer dictionary-encodes BOOLEAN) *)
+Definition dictionary_capable (t : Z) : Prop :=
+  t = E_CARQUET_PHYSICAL_INT32 \/ t = E_CARQUET_PHYSICAL_INT64 \/ t = E_CARQUET_PHYSICAL_INT96 \/
+  t = E_CARQUET_PHYSICAL_FLOAT \/ t = E_CARQUET_PHYSICAL_DOUBLE \/ t = E_CARQUET_PHYSICAL_BYTE_ARRAY \/
+  t = E_CARQUET_PHYSICAL_FIXED_LEN_BYTE_ARRAY.
 
 (** ... and the one deviation this development records: codec id 5 (LZ4, deprecated; the format defines it as the
     Hadoop-framed layout) is also accepted by carquet and read as a bare LZ4 block, like LZ4_RAW. *)
